@@ -182,10 +182,16 @@ func c26IRQCheck(c *Ctx) func(l *explore.Local, _ struct{}, cs c26IRQ) *explore.
 			g.parts.Timer.VSetCounter(uint16((1024 - 4*first) % 1024))
 			g.parts.Mapper.Write(0xffff, 0x00)
 			g.parts.Mapper.Write(0xff0f, 0x00)
+			// the request is latched in IF whatever the master enable says (it alternates from position to position)
+			if (k/cs.Step)%2 == 0 {
+				g.parts.Interrupts.Disable()
+			} else {
+				g.parts.Interrupts.Enable()
+			}
 			g.frame(ctx)
 			l.Trans(1)
 			if g.parts.Mapper.Read(0xff0f)&0x04 == 0 {
-				return explore.Failf("a timer overflow during a frame does not raise the timer interrupt request", "overflow in machine cycle %d of the frame: IF=%02x TIMA=%02x afterwards", k, g.parts.Mapper.Read(0xff0f), g.parts.Mapper.Read(0xff05))
+				return explore.Failf("a timer overflow during a frame does not raise the timer interrupt request", "overflow in machine cycle %d of the frame (master enable %v, IE=00): IF=%02x TIMA=%02x afterwards", k, (k/cs.Step)%2 != 0, g.parts.Mapper.Read(0xff0f), g.parts.Mapper.Read(0xff05))
 			}
 		}
 		l.Eval(1)
